@@ -29,8 +29,14 @@ import vcommon
 from vcommon import VERIF
 
 NPARTS = 8     # must equal x_c07_use.NPARTS (checked in translate)
-PROPS = ["Bee2V/C07/Props.lean"] + ["Bee2V/Gen/C07Use%s_%d.lean" % (w, i) for w in ("W64", "W32") for i in range(NPARTS)]
+PROPS = ["Bee2V/C07/Props.lean", "Bee2V/C07/PropsBlob.lean"] + ["Bee2V/Gen/C07Use%s_%d.lean" % (w, i) for w in ("W64", "W32") for i in range(NPARTS)]
 CFGS = {"W64": "asan-dbg", "W32": "w32-dbg"}
+# the blob layer must ALSO be checked in the shipped page-rounded configuration (no -DBEE2_VERIF): with the hook
+# (BLOB_PAGE_SIZE 1) every resize reallocates and in-page growth does not exist.  `rel-plain` = shipped build;
+# `asan-plain-dbg` = ASan + ASSERTs without the hook (registered here; proposed for vcommon.CONFIGS).
+vcommon.CONFIGS.setdefault("asan-plain-dbg", ("Debug", "-O1 " + vcommon.SAN, []))
+PLAIN_CFGS = ["rel-plain", "asan-plain-dbg"]
+PROPS_BLOB = "Bee2V/C07/PropsBlob.lean"
 
 # Obligations that are generated but not provable with what the translators extract today.
 # Each entry: function -> what is missing.  They are not theorems; ASan runs at exact size
@@ -237,6 +243,81 @@ def math_ops(rng, tier, w):
     return ops
 
 
+def blob_ops(rng, tier):
+    """op sequences on two blob handles (see Bee2V/C07/DrvBlob.lean for the tokens).  Classes: shrink then grow
+    inside one 1 KiB page (stale octets), growth of a fresh blob inside its page after recycling heap chunks of
+    that size class (uninitialised / freed heap), growth/shrink across page boundaries, sizes at the page
+    boundaries (1024k - 8 +- 1), wipe then grow, copy into a larger / smaller / null / recycled blob, compare;
+    plus random sequences."""
+    ops = []
+    PAGE, HDR = 1024, 8
+    edge = [1, 2, 7, 8, 9, 16, 100, 500, PAGE - HDR - 1, PAGE - HDR, PAGE - HDR + 1, PAGE, PAGE + 1, 2 * PAGE - HDR - 1, 2 * PAGE - HDR,
+            2 * PAGE - HDR + 1, 3000]
+
+    def poison():
+        return "p%dx%d" % (rng.choice([PAGE, 2 * PAGE, 3 * PAGE, 4 * PAGE]), rng.choice([2, 4, 8]))
+    # 1. shrink -> grow inside a page / across pages
+    for big in (16, 200, 600, PAGE - HDR, PAGE - HDR + 1, 1500, 2 * PAGE - HDR, 2500):
+        for small in (1, 8, big // 2, max(1, big - 1)):
+            for back in (big, min(big + 7, 4000), max(small + 1, big - 3)):
+                ops.append("blob ca%d fa%d ra%d ra%d" % (big, rng.randrange(1, 200), small, back))
+    # 2. fresh small blob in a recycled chunk, grown inside its page / to the page end / across
+    for small in (1, 8, 100, 1000):
+        for big in (small + 1, 600, PAGE - HDR, PAGE - HDR + 1, 2 * PAGE - HDR, 2 * PAGE, 3500):
+            if big > small:
+                ops.append("blob p%dx8 p%dx4 ca%d ra%d" % (PAGE, 2 * PAGE, small, big))
+                ops.append("blob p%dx8 ca%d fa3 ra%d ra%d" % (PAGE, small, big, max(1, small - 1)))
+    # 3. create after recycling: blobCreate must zero the whole blob
+    for n in edge:
+        ops.append("blob %s %s ca%d cb%d q" % (poison(), poison(), n, n))
+    # 4. wipe, then grow / shrink / copy
+    for n in (8, 300, PAGE - HDR, 1500):
+        ops.append("blob ca%d fa7 za ra%d ra%d fa9 ra%d" % (n, n + 100, max(1, n // 2), n + 50))
+        ops.append("blob ca%d fa7 cb%d fb8 zb yab q xb yab" % (n, n // 2 + 1))
+    # 5. copy into larger / smaller / null / recycled destinations, source null
+    for sn in (0, 1, 100, PAGE - HDR, 1200):
+        for dn in (0, 5, 500, PAGE - HDR + 1, 2600):
+            ops.append("blob %s cb%d fb%d ca%d fa%d yab q yba q ra%d q" % (poison(), sn, rng.randrange(300), dn, rng.randrange(300), dn + 3))
+    # 6. partial writes and step-wise growth (the pattern of bake.c / util.c users)
+    for step in (1, 7, 64, 300):
+        seq, n = ["ca%d" % step, "fa1"], step
+        for k in range(8):
+            n += step
+            seq += ["ra%d" % n, "wa%d,%d,%d" % (n - step, max(1, step // 2), k + 2)]
+        seq += ["ra%d" % step, "ra%d" % n]
+        ops.append("blob p%dx4 %s" % (PAGE, " ".join(seq)))
+    # 7. random sequences
+    nrand = 60 if tier == "quick" else 600
+    for _ in range(nrand):
+        seq = [poison()] if rng.random() < 0.7 else []
+        size = {"a": 0, "b": 0}
+        for _k in range(rng.randrange(4, 22)):
+            h = rng.choice("ab")
+            r = rng.random()
+            n = rng.choice(edge) if rng.random() < 0.5 else rng.randrange(0, 3300)
+            if r < 0.12:
+                seq.append("c%s%d" % (h, n)); size[h] = n
+            elif r < 0.50:
+                if rng.random() < 0.5 and size[h]:      # stay near the current size: in-page moves
+                    n = max(0, size[h] + rng.randrange(-300, 300))
+                seq.append("r%s%d" % (h, n)); size[h] = n
+            elif r < 0.65:
+                seq.append("f%s%d" % (h, rng.randrange(1000)))
+            elif r < 0.75:
+                seq.append("w%s%d,%d,%d" % (h, rng.randrange(0, size[h] + 2), rng.randrange(0, 400), rng.randrange(1000)))
+            elif r < 0.80:
+                seq.append("z%s" % h)
+            elif r < 0.90:
+                o = "b" if h == "a" else "a"
+                seq.append("y%s%s" % (h, o)); size[h] = size[o]
+            elif r < 0.94:
+                seq.append("x%s" % h); size[h] = 0
+            else:
+                seq.append("q")
+        ops.append("blob " + " ".join(seq))
+    return ops
+
+
 def hl_ops():
     p = os.path.join(VERIF, "gen", "c07_hl_ops.txt")
     if not os.path.exists(p) or not os.path.exists(os.path.join(VERIF, "harness", "c07_hl.h")):
@@ -376,6 +457,14 @@ def valgrind_run(ctx, exe, ops, label):
     return bad
 
 
+def _first_diff(c, l):
+    cs, ls = c.replace(" | ", ";").split(";"), l.replace(" | ", ";").split(";")
+    for i, (x, y) in enumerate(zip(cs, ls)):
+        if x != y:
+            return "step %d: implementation `%s`, specification `%s`" % (i + 1, x[:120], y[:120])
+    return "lengths differ"
+
+
 def replay_text(cfg, ops, what):
     return "# property C07: %s\n# replay: ./check C07 --replay <this file>  (runs the ops on the C side, cfg %s)\ncfg %s\n%s\n" % (
         what, cfg, cfg, "\n".join(ops))
@@ -393,7 +482,7 @@ def run(ctx):
         # without the translator -> report.
         ctx.violation("translator", "# property C07: the translators could not read /repo: %s\n" % terr, False, "translator failed: " + terr)
         return ctx.finish(level="proof", assumptions=[], rule="translator failed")
-    proof_ok, log = ctx.prove(["Bee2V.C07.Props", "Bee2V.Gen.C07UseW64", "Bee2V.Gen.C07UseW32"], PROPS)
+    proof_ok, log = ctx.prove(["Bee2V.C07.Props", "Bee2V.C07.PropsBlob", "Bee2V.Gen.C07UseW64", "Bee2V.Gen.C07UseW32"], PROPS)
     failing_thms = []
     if not proof_ok:
         for m in re.finditer(r"error: (\S*C07Use(W\d\d)(_\d+)\.lean):(\d+)", log):
@@ -421,7 +510,7 @@ def run(ctx):
         cfg = CFGS[w]
         exe = build_harness(ctx, cfg, info[w]["cfiles"], w)
         exes[w] = exe
-        ops = corpus() + deep_ops(info[w], ctx.rng, ctx.tier, w) + math_ops(ctx.rng, ctx.tier, w) + hl_ops() + core_ops()
+        ops = corpus() + deep_ops(info[w], ctx.rng, ctx.tier, w) + math_ops(ctx.rng, ctx.tier, w) + hl_ops() + core_ops() + blob_ops(ctx.rng, ctx.tier)
         if not driver_ok:
             # the generated definitions do not compile: the C side still runs (oracle), no comparison
             c_out, c_err, rc = ctx.run_lines(exe, ops, env={"C07_HW": "1"})
@@ -434,6 +523,27 @@ def run(ctx):
             probs, st = run_cfg(ctx, exe, w, ops, w)
         all_problems[w] = probs
         stats_all[w] = st
+    # the blob layer in the SHIPPED page-rounded configuration (hook off): same op sequences, model with page 1024
+    vg_plain = None
+    for cfg in PLAIN_CFGS:
+        try:
+            exe_p = build_harness(ctx, cfg, info["W64"]["cfiles"], cfg)
+        except RuntimeError as e:
+            ctx.notes.append("configuration %s could not be built: %s" % (cfg, str(e)[:200]))
+            ctx.violation("build:" + cfg, "# property C07: the page-rounded configuration %s could not be built\n" % cfg, False, str(e)[:300])
+            continue
+        bops = [o for o in corpus() if o.startswith("blob ")] + blob_ops(ctx.rng, ctx.tier)
+        if driver_ok:
+            probs, st = run_cfg(ctx, exe_p, "PLAIN", bops, cfg)
+        else:
+            probs, st = [], {"ops": 0}
+        all_problems["PLAIN:" + cfg] = probs
+        stats_all["PLAIN:" + cfg] = st
+        CFGS["PLAIN:" + cfg] = cfg
+        if cfg == "rel-plain":
+            # memcheck on the shipped build: printing an uninitialised octet of a blob is reported
+            vg_plain = valgrind_run(ctx, exe_p, bops if ctx.tier == "thorough" else bops[:250], "plain")
+            ctx.cov["valgrind_blob_ops_plain"] = len(bops) if ctx.tier == "thorough" else min(250, len(bops))
     # valgrind (release build, 64-bit words): quick = subset, thorough = everything but the slow ecp/hl sweeps twice
     vg_bad = None
     try:
@@ -491,10 +601,20 @@ def run(ctx):
             elif kind == "hw":
                 found_any = True
                 ctx.violation(key, replay_text(w, [op], "high-water mark above the declared depth"), True, "%s: measured %s" % (op, c))
+            elif op.startswith("blob "):
+                # the blob layer returns contents / sizes that differ from the model proved equal to blob.h's
+                # specification: stale or uninitialised octets reach the caller (or a wrong size)
+                found_any = True
+                ctx.violation(key, replay_text(w, [op], "blob contents/size differ from the specification (blob.h): implementation %s ... expected %s ..." % (
+                    c[:200], l[:200])), True, "%s (cfg %s): first difference at %s" % (op[:300], CFGS[w], _first_diff(c, l)))
             else:
                 # model and implementation disagree on a size: search oracle = exact-size runs above (did not crash)
                 ctx.violation(key, replay_text(w, [op], "size function: compiled value %s, regenerated model %s" % (c, l)), False,
                               "%s: compiled %s, model %s" % (op, c, l))
+    for op, rep in (vg_plain or [])[:3]:
+        found_any = True
+        ctx.violation("valgrind-plain:" + (op.split()[0] if op.split() else "stream"), replay_text("RELPLAIN", [op], "valgrind memcheck report (page-rounded build)"), True,
+                      "%s: %s" % (op[:300], rep[-600:]))
     if vg_bad:
         for op, rep in vg_bad[:3]:
             found_any = True
@@ -547,23 +667,38 @@ def replay(ctx, path):
     w = "W32" if cfgw == "W32" else "W64"
     tree = xc.Tree(w)
     _, items, _ = xd.gen_lean(tree, w)
-    cfg = "rel" if cfgw == "REL" else CFGS[w]
+    if cfgw == "REL":
+        cfg, dcfg = "rel", "W64"
+    elif cfgw == "RELPLAIN":
+        cfg, dcfg = "rel-plain", "PLAIN"
+    elif cfgw.startswith("PLAIN"):
+        cfg, dcfg = (cfgw.split(":", 1)[1] if ":" in cfgw else "rel-plain"), "PLAIN"
+    else:
+        cfg, dcfg = CFGS[w], w
     exe = build_harness(ctx, cfg, xd.gen_c(tree, items), "replay")
+    have_drv = os.path.exists(ctx.driver())
     bad = 0
     for op in ops:
-        if cfgw == "REL":
+        if cfgw in ("REL", "RELPLAIN"):
             q = subprocess.run(["valgrind", "-q", "--error-exitcode=77", exe], input=op + "\n", capture_output=True, text=True,
                                env=dict(os.environ, C07_SINK="1"))
             ok = q.returncode == 0
-            print("%s -> %s" % (op, q.stdout.strip() if ok else "valgrind: " + q.stderr[-400:]))
+            print("%s -> %s" % (op, q.stdout.strip()[:300] if ok else "valgrind: " + q.stderr[-400:]))
         else:
             out, err, rc = ctx.run_lines(exe, [op], env={"C07_HW": "1"})
             ok = rc == 0
             summ = [l for l in err.split("\n") if "ERROR" in l or "SUMMARY" in l or "Assertion" in l][:3]
-            print("%s -> %s" % (op, out[0] if ok and out else "CRASH(rc=%d) %s" % (rc, " | ".join(summ))))
+            print("%s -> %s" % (op, out[0][:400] if ok and out else "CRASH(rc=%d) %s" % (rc, " | ".join(summ))))
             m = HWRE.search(out[0]) if ok and out else None
             if m and int(m.group(1)) > int(out[0].split()[0]):
                 ok = False
+            if ok and have_drv and op.split()[0] in ("blob", "deep", "run"):
+                lo, _, lrc = ctx.run_lines(ctx.driver(), ["cfg " + dcfg, op])
+                exp = lo[1] if lrc == 0 and len(lo) == 2 else None
+                got = HWRE.sub("", out[0])
+                if exp is not None and exp != got:
+                    ok = False
+                    print("   differs from the model: %s" % (_first_diff(got, exp) if op.startswith("blob ") else "model " + exp[:200]))
         bad += 0 if ok else 1
     print("%d of %d ops fail on the current tree" % (bad, len(ops)))
     return 1 if bad else 0
